@@ -320,6 +320,10 @@ def check_agree(case):
     log = []
     a = _run_variant("eager", case, ob, log if case["api"] == "explicit" else None)
     b = _run_variant("static", case, ob)
+    if case["api"] != "explicit":
+        # the evaluation log needs an explicit fun_and_grad; an auxiliary eager run with the explicit call
+        # style (same mathematics) is used ONLY to name the structural event in the finding key
+        _run_variant("eager", dict(case, api="explicit"), ob, log)
     if "exc" in a or "exc" in b:
         if a.get("exc", "").split(":")[0] == b.get("exc", "").split(":")[0]:
             return skip("both variants raise %s" % a["exc"].split(":")[0])
